@@ -58,6 +58,12 @@ Proof. destruct k; reflexivity. Qed.
 Lemma closed_with_map s k m : closed (with_map s k m) = closed s.
 Proof. destruct k; reflexivity. Qed.
 
+Lemma live_with_map s k m : live (with_map s k m) = live s.
+Proof. destruct k; reflexivity. Qed.
+
+Lemma smap_with_live s l k : smap (with_live s l) k = smap s k.
+Proof. destruct k; reflexivity. Qed.
+
 Lemma smap_with_resum s r k : smap (with_resum s r) k = smap s k.
 Proof. destruct k; reflexivity. Qed.
 
@@ -130,6 +136,27 @@ Proof.
   congruence.
 Qed.
 
+(* ================= live callers ================= *)
+Lemma mem_nat_true h l : mem_nat h l = true <-> In h l.
+Proof.
+  unfold mem_nat. rewrite existsb_exists. split.
+  - intros (x & Hin & E). apply Nat.eqb_eq in E. subst. exact Hin.
+  - intros Hin. exists h. split; [exact Hin|apply Nat.eqb_refl].
+Qed.
+
+Lemma mem_nat_false h l : mem_nat h l = false <-> ~ In h l.
+Proof.
+  rewrite <- mem_nat_true. destruct (mem_nat h l); split; intros H; try reflexivity; try discriminate.
+  exfalso. apply H. reflexivity.
+Qed.
+
+Lemma lv_del_in l h h' : In h' (lv_del l h) <-> In h' l /\ h' <> h.
+Proof.
+  unfold lv_del. rewrite filter_In. split; intros [H1 H2]; split; try exact H1.
+  - intros ->. rewrite Nat.eqb_refl in H2. discriminate.
+  - destruct (Nat.eqb h' h) eqn:E; [apply Nat.eqb_eq in E; contradiction|reflexivity].
+Qed.
+
 (* ================= the simulation invariant ================= *)
 Definition pub2_at (p : phase) (id : N) : Prop :=
   match p with
@@ -138,8 +165,13 @@ Definition pub2_at (p : phase) (id : N) : Prop :=
   end.
 
 (* [f h] is the phase of request h according to the one-request automaton *)
+Definition is_wait (p : phase) : Prop := exists k id subs, p = PWait k id subs.
+
 Record Inv (s : sig) (f : nat -> phase) (used : list nat) : Prop := {
-  inv_map : forall k id w, wm_get (smap s k) id = Some w -> f (w_h w) = PWait k id (w_subs w);
+  (* an entry belongs to the request waiting under it, or is the stale entry of one that gave up *)
+  inv_map : forall k id w, wm_get (smap s k) id = Some w ->
+    f (w_h w) = PWait k id (w_subs w) \/ f (w_h w) = PFin;
+  inv_live : forall h, In h (live s) <-> is_wait (f h);
   inv_wait : forall h k id subs, f h = PWait k id subs -> wm_get (smap s k) id = Some (mkW h subs);
   inv_resum : forall h id, In (h, id) (resum s) <-> f h = PResum id;
   inv_pub2 : forall h1 h2 id, pub2_at (f h1) id -> pub2_at (f h2) id -> h1 = h2;
@@ -160,6 +192,7 @@ Lemma Inv_init : Inv sig_init (fun _ => PNone) [].
 Proof.
   split; try discriminate.
   - intros k id w. destruct k; discriminate.
+  - intros h. cbn. split; [intros []|intros (k & id & subs & E); discriminate].
   - intros h id. cbn. split; [tauto|discriminate].
   - intros h1 h2 id H; destruct H.
   - reflexivity.
@@ -192,6 +225,32 @@ Qed.
 Lemma key_eqb_true k' k id' id : akind_eqb k' k && (id' =? id) = true <-> k' = k /\ id' = id.
 Proof. rewrite andb_true_iff, akind_eqb_eq, N.eqb_eq. tauto. Qed.
 
+Lemma key_eqb_refl k id : akind_eqb k k && (id =? id) = true.
+Proof. apply key_eqb_true. auto. Qed.
+
+Lemma is_wait_PWait k id subs : is_wait (PWait k id subs).
+Proof. exists k, id, subs. reflexivity. Qed.
+
+Lemma not_wait_fin : ~ is_wait PFin.
+Proof. intros (k & id & subs & E). discriminate. Qed.
+
+Lemma not_wait_none : ~ is_wait PNone.
+Proof. intros (k & id & subs & E). discriminate. Qed.
+
+Lemma not_wait_resum i : ~ is_wait (PResum i).
+Proof. intros (k & id & subs & E). discriminate. Qed.
+
+(* the entry of a live caller is the one it waits under *)
+Lemma live_entry s f used k id w : Inv s f used -> wm_get (smap s k) id = Some w ->
+  In (w_h w) (live s) -> f (w_h w) = PWait k id (w_subs w).
+Proof.
+  intros I G L. destruct (inv_map _ _ _ I _ _ _ G) as [P|P]; [exact P|].
+  apply (inv_live _ _ _ I) in L. rewrite P in L. exfalso. exact (not_wait_fin L).
+Qed.
+
+(* a phase function that differs from f only at h0, where a waiting/resumable request moves to
+   a phase that is not waiting: the bookkeeping common to all such steps *)
+
 (* ---------- Start ---------- *)
 Lemma react_start h' p h rk id :
   react h' p (Start h rk id) =
@@ -203,11 +262,12 @@ Proof. destruct p; reflexivity. Qed.
 
 Lemma sim_start s f used h rk id :
   closed s = false -> Inv s f used -> mem_nat h used = false -> fresh s rk id = true ->
-  step s (Start h rk id) = (register s (first_kind rk) id (mkW h (subs_of rk)), []) /\
+  let s1 := register s (first_kind rk) id (mkW h (subs_of rk)) in
+  step s (Start h rk id) = (with_live s1 (h :: live s1), []) /\
   (forall h', snd (react h' (f h') (Start h rk id)) = []) /\
-  Inv (register s (first_kind rk) id (mkW h (subs_of rk))) (adv f (Start h rk id)) (h :: used).
+  Inv (with_live s1 (h :: live s1)) (adv f (Start h rk id)) (h :: used).
 Proof.
-  intros Hc I Hu Hf. pose proof (inv_new _ _ _ I h Hu) as Hh.
+  intros Hc I Hu Hf s1. pose proof (inv_new _ _ _ I h Hu) as Hh.
   assert (Hadv_h : adv f (Start h rk id) h = PWait (first_kind rk) id (subs_of rk)).
   { unfold adv. rewrite react_start, Hh, Nat.eqb_refl. reflexivity. }
   assert (Hadv_o : forall h', h' <> h -> adv f (Start h rk id) h' = f h').
@@ -216,21 +276,24 @@ Proof.
   split; [cbn [step]; rewrite Hc; reflexivity|]. split.
   { intros h'. rewrite react_start. destruct (f h'); try reflexivity. destruct (Nat.eqb h h'); reflexivity. }
   pose proof (fresh_first _ _ _ Hf) as Hfree.
+  assert (Ls1 : live s1 = live s) by (unfold s1, register; apply live_with_map).
   split.
-  - intros k id' w. rewrite get_register.
+  - intros k id' w. rewrite smap_with_live. unfold s1. rewrite get_register.
     destruct (akind_eqb k (first_kind rk) && (id' =? id)) eqn:E.
-    + apply key_eqb_true in E as [-> ->]. intros [= <-]. cbn [w_h w_subs]. exact Hadv_h.
+    + apply key_eqb_true in E as [-> ->]. intros [= <-]. cbn [w_h w_subs]. left. exact Hadv_h.
     + intros G. pose proof (inv_map _ _ _ I _ _ _ G) as P.
-      rewrite Hadv_o; [exact P|]. intros Eh. rewrite Eh, Hh in P. discriminate.
-  - intros h' k id' subs P. rewrite get_register.
+      rewrite Hadv_o; [exact P|]. intros Eh. rewrite Eh, Hh in P. destruct P; discriminate.
+  - intros h'. cbn [live with_live]. rewrite Ls1. cbn [In].
     destruct (Nat.eq_dec h' h) as [->|Hn].
-    + rewrite Hadv_h in P. injection P as <- <- <-.
-      replace (akind_eqb (first_kind rk) (first_kind rk) && (id =? id)) with true; [reflexivity|].
-      symmetry. apply key_eqb_true. auto.
+    + rewrite Hadv_h. split; [intros _; apply is_wait_PWait|auto].
+    + rewrite Hadv_o by exact Hn. rewrite <- (inv_live _ _ _ I). split; [intros [E|L]; [congruence|exact L]|auto].
+  - intros h' k id' subs P. rewrite smap_with_live. unfold s1. rewrite get_register.
+    destruct (Nat.eq_dec h' h) as [->|Hn].
+    + rewrite Hadv_h in P. injection P as <- <- <-. rewrite key_eqb_refl. reflexivity.
     + rewrite Hadv_o in P by exact Hn. pose proof (inv_wait _ _ _ I _ _ _ _ P) as G.
       destruct (akind_eqb k (first_kind rk) && (id' =? id)) eqn:E; [|exact G].
       apply key_eqb_true in E as [-> ->]. rewrite Hfree in G. discriminate.
-  - intros h' id'. unfold register. rewrite resum_with_map.
+  - intros h' id'. cbn [resum with_live]. unfold s1, register. rewrite resum_with_map.
     destruct (Nat.eq_dec h' h) as [->|Hn].
     + rewrite Hadv_h. rewrite (inv_resum _ _ _ I). rewrite Hh. split; discriminate.
     + rewrite Hadv_o by exact Hn. apply (inv_resum _ _ _ I).
@@ -257,6 +320,7 @@ Lemma Inv_ext s f g used : (forall h, g h = f h) -> Inv s f used -> Inv s g used
 Proof.
   intros E I. split.
   - intros k id w G. rewrite E. exact (inv_map _ _ _ I _ _ _ G).
+  - intros h. rewrite E. apply (inv_live _ _ _ I).
   - intros h k id subs P. rewrite E in P. exact (inv_wait _ _ _ I _ _ _ _ P).
   - intros h id. rewrite E. apply (inv_resum _ _ _ I).
   - intros h1 h2 id. rewrite !E. apply (inv_pub2 _ _ _ I).
@@ -294,14 +358,12 @@ Proof.
 Qed.
 
 Lemma owner_reacts s f used a w : Inv s f used ->
-  wm_get (smap s (a_kind a)) (a_id a) = Some w ->
+  wm_get (smap s (a_kind a)) (a_id a) = Some w -> In (w_h w) (live s) ->
   f (w_h w) = PWait (a_kind a) (a_id a) (w_subs w) /\
   react (w_h w) (f (w_h w)) (Recv a) = on_ack (w_h w) (a_kind a) (a_id a) (w_subs w) a.
 Proof.
-  intros I G. pose proof (inv_map _ _ _ I _ _ _ G) as P. split; [exact P|].
-  rewrite react_recv, P.
-  replace (akind_eqb (a_kind a) (a_kind a) && (a_id a =? a_id a)) with true; [reflexivity|].
-  symmetry. apply key_eqb_true. auto.
+  intros I G L. pose proof (live_entry _ _ _ _ _ _ I G L) as P. split; [exact P|].
+  rewrite react_recv, P, key_eqb_refl. reflexivity.
 Qed.
 
 Lemma nobody_reacts s f used a : Inv s f used ->
@@ -313,24 +375,58 @@ Proof.
   apply key_eqb_true in K as [<- <-]. pose proof (inv_wait _ _ _ I _ _ _ _ E) as G2. congruence.
 Qed.
 
-(* the waiter is taken out and its request finishes *)
-Lemma inv_finish s f used k id w g : Inv s f used ->
-  wm_get (smap s k) id = Some w ->
-  g (w_h w) = PFin -> (forall h', h' <> w_h w -> g h' = f h') ->
-  Inv (snd (take s k id)) g used.
+(* the entry found is stale: its caller gave up. Nobody reacts, the entry goes away. *)
+Lemma stale_nobody_reacts s f used a w : Inv s f used ->
+  wm_get (smap s (a_kind a)) (a_id a) = Some w -> ~ In (w_h w) (live s) ->
+  forall h', react h' (f h') (Recv a) = (f h', []).
 Proof.
-  intros I G Gh Go. pose proof (inv_map _ _ _ I _ _ _ G) as P0.
-  split.
+  intros I G NL h'. destruct (Nat.eq_dec h' (w_h w)) as [->|Hn]; [|exact (others_ignore s f used a w I G h' Hn)].
+  rewrite react_recv. destruct (f (w_h w)) as [|k id subs| |] eqn:E; try reflexivity.
+  exfalso. apply NL. apply (inv_live _ _ _ I). rewrite E. apply is_wait_PWait.
+Qed.
+
+Lemma inv_stale s f used k id w : Inv s f used ->
+  wm_get (smap s k) id = Some w -> ~ In (w_h w) (live s) ->
+  Inv (snd (take s k id)) f used.
+Proof.
+  intros I G NL. split.
   - intros k' id' w'. rewrite get_take.
+    destruct (akind_eqb k' k && (id' =? id)); [discriminate|]. apply (inv_map _ _ _ I).
+  - intros h. unfold take. cbn [snd]. rewrite live_with_map. apply (inv_live _ _ _ I).
+  - intros h' k' id' subs P. pose proof (inv_wait _ _ _ I _ _ _ _ P) as G'.
+    rewrite get_take. destruct (akind_eqb k' k && (id' =? id)) eqn:K; [|exact G'].
+    apply key_eqb_true in K as [-> ->]. rewrite G in G'. injection G' as ->. cbn in NL.
+    exfalso. apply NL. apply (inv_live _ _ _ I). rewrite P. apply is_wait_PWait.
+  - intros h' id'. unfold take. cbn [snd]. rewrite resum_with_map. apply (inv_resum _ _ _ I).
+  - apply (inv_pub2 _ _ _ I).
+  - apply (inv_new _ _ _ I).
+Qed.
+
+(* the waiter of a live caller is taken out, the caller is signalled, its request finishes *)
+Lemma inv_finish s f used k id w g : Inv s f used ->
+  wm_get (smap s k) id = Some w -> In (w_h w) (live s) ->
+  g (w_h w) = PFin -> (forall h', h' <> w_h w -> g h' = f h') ->
+  let s1 := snd (take s k id) in
+  Inv (with_live s1 (lv_del (live s1) (w_h w))) g used.
+Proof.
+  intros I G L Gh Go s1. pose proof (live_entry _ _ _ _ _ _ I G L) as P0.
+  assert (Ls1 : live s1 = live s) by (unfold s1, take; cbn [snd]; apply live_with_map).
+  split.
+  - intros k' id' w'. rewrite smap_with_live. unfold s1. rewrite get_take.
     destruct (akind_eqb k' k && (id' =? id)) eqn:K; [discriminate|]. intros G'.
     pose proof (inv_map _ _ _ I _ _ _ G') as P. rewrite Go; [exact P|].
-    intros Eh. rewrite Eh, P0 in P. injection P as E1 E2 _. subst k' id'.
-    replace (akind_eqb k k && (id =? id)) with true in K; [discriminate|symmetry; apply key_eqb_true; auto].
+    intros Eh. rewrite Eh, P0 in P. destruct P as [P|P]; [|discriminate].
+    injection P as E1 E2 _. subst k' id'. rewrite key_eqb_refl in K. discriminate.
+  - intros h'. cbn [live with_live]. rewrite Ls1, lv_del_in, (inv_live _ _ _ I).
+    destruct (Nat.eq_dec h' (w_h w)) as [->|Hn].
+    + rewrite Gh. split; [intros [_ H]; congruence|intros H; exfalso; exact (not_wait_fin H)].
+    + rewrite Go by exact Hn. tauto.
   - intros h' k' id' subs P. destruct (Nat.eq_dec h' (w_h w)) as [->|Hn]; [congruence|].
     rewrite Go in P by exact Hn. pose proof (inv_wait _ _ _ I _ _ _ _ P) as G'.
-    rewrite get_take. destruct (akind_eqb k' k && (id' =? id)) eqn:K; [|exact G'].
+    rewrite smap_with_live. unfold s1. rewrite get_take.
+    destruct (akind_eqb k' k && (id' =? id)) eqn:K; [|exact G'].
     apply key_eqb_true in K as [-> ->]. rewrite G in G'. injection G' as ->. cbn in Hn. congruence.
-  - intros h' id'. unfold take. cbn [snd]. rewrite resum_with_map.
+  - intros h' id'. cbn [resum with_live]. unfold s1, take. cbn [snd]. rewrite resum_with_map.
     destruct (Nat.eq_dec h' (w_h w)) as [->|Hn].
     + rewrite Gh. rewrite (inv_resum _ _ _ I), P0. split; discriminate.
     + rewrite Go by exact Hn. apply (inv_resum _ _ _ I).
@@ -343,24 +439,30 @@ Qed.
 
 (* PUBREC: the waiter leaves chPubRec, its request becomes resumable *)
 Lemma inv_pubrec s f used id w g : Inv s f used ->
-  wm_get (smap s KPubRec) id = Some w ->
+  wm_get (smap s KPubRec) id = Some w -> In (w_h w) (live s) ->
   g (w_h w) = PResum id -> (forall h', h' <> w_h w -> g h' = f h') ->
   let s1 := snd (take s KPubRec id) in
-  Inv (with_resum s1 (resum s1 ++ [(w_h w, id)])) g used.
+  let s2 := with_live s1 (lv_del (live s1) (w_h w)) in
+  Inv (with_resum s2 (resum s2 ++ [(w_h w, id)])) g used.
 Proof.
-  intros I G Gh Go s1. pose proof (inv_map _ _ _ I _ _ _ G) as P0.
+  intros I G L Gh Go s1 s2. pose proof (live_entry _ _ _ _ _ _ I G L) as P0.
+  assert (Ls1 : live s1 = live s) by (unfold s1, take; cbn [snd]; apply live_with_map).
   split.
-  - intros k' id' w'. rewrite smap_with_resum. unfold s1. rewrite get_take.
+  - intros k' id' w'. rewrite smap_with_resum. unfold s2. rewrite smap_with_live. unfold s1. rewrite get_take.
     destruct (akind_eqb k' KPubRec && (id' =? id)) eqn:K; [discriminate|]. intros G'.
     pose proof (inv_map _ _ _ I _ _ _ G') as P. rewrite Go; [exact P|].
-    intros Eh. rewrite Eh, P0 in P. injection P as E1 E2 _. subst k' id'.
-    rewrite N.eqb_refl in K. discriminate.
+    intros Eh. rewrite Eh, P0 in P. destruct P as [P|P]; [|discriminate].
+    injection P as E1 E2 _. subst k' id'. rewrite key_eqb_refl in K. discriminate.
+  - intros h'. cbn [live with_live with_resum s2]. rewrite Ls1, lv_del_in, (inv_live _ _ _ I).
+    destruct (Nat.eq_dec h' (w_h w)) as [->|Hn].
+    + rewrite Gh. split; [intros [_ H]; congruence|intros H; exfalso; exact (not_wait_resum _ H)].
+    + rewrite Go by exact Hn. tauto.
   - intros h' k' id' subs P. destruct (Nat.eq_dec h' (w_h w)) as [->|Hn]; [congruence|].
     rewrite Go in P by exact Hn. pose proof (inv_wait _ _ _ I _ _ _ _ P) as G'.
-    rewrite smap_with_resum. unfold s1. rewrite get_take.
+    rewrite smap_with_resum. unfold s2. rewrite smap_with_live. unfold s1. rewrite get_take.
     destruct (akind_eqb k' KPubRec && (id' =? id)) eqn:K; [|exact G'].
     apply key_eqb_true in K as [-> ->]. rewrite G in G'. injection G' as ->. cbn in Hn. congruence.
-  - intros h' id'. cbn [resum with_resum]. unfold s1, take. cbn [snd]. rewrite resum_with_map.
+  - intros h' id'. cbn [resum with_resum with_live s2]. unfold s1, take. cbn [snd]. rewrite resum_with_map.
     rewrite in_app_iff. cbn [In].
     destruct (Nat.eq_dec h' (w_h w)) as [->|Hn].
     + rewrite Gh. rewrite (inv_resum _ _ _ I), P0. split.
@@ -388,29 +490,100 @@ Proof. destruct p; reflexivity. Qed.
 Lemma inv_resume s f used h id g : Inv s f used ->
   rs_get (resum s) h = Some id ->
   g h = PWait KPubComp id [] -> (forall h', h' <> h -> g h' = f h') ->
-  Inv (register (with_resum s (rs_del (resum s) h)) KPubComp id (mkW h [])) g used.
+  let s1 := register (with_resum s (rs_del (resum s) h)) KPubComp id (mkW h []) in
+  Inv (with_live s1 (h :: live s1)) g used.
 Proof.
-  intros I R Gh Go. apply rs_get_in in R. pose proof (proj1 (inv_resum _ _ _ I _ _) R) as P0.
+  intros I R Gh Go s1. apply rs_get_in in R. pose proof (proj1 (inv_resum _ _ _ I _ _) R) as P0.
+  assert (Ls1 : live s1 = live s) by (unfold s1, register; rewrite live_with_map; reflexivity).
   split.
-  - intros k' id' w'. rewrite get_register, smap_with_resum.
+  - intros k' id' w'. rewrite smap_with_live. unfold s1. rewrite get_register, smap_with_resum.
     destruct (akind_eqb k' KPubComp && (id' =? id)) eqn:K.
-    + apply key_eqb_true in K as [-> ->]. intros [= <-]. exact Gh.
+    + apply key_eqb_true in K as [-> ->]. intros [= <-]. left. exact Gh.
     + intros G'. pose proof (inv_map _ _ _ I _ _ _ G') as P. rewrite Go; [exact P|].
-      intros Eh. rewrite Eh, P0 in P. discriminate.
-  - intros h' k' id' subs P. rewrite get_register, smap_with_resum.
+      intros Eh. rewrite Eh, P0 in P. destruct P; discriminate.
+  - intros h'. cbn [live with_live]. rewrite Ls1. cbn [In].
+    destruct (Nat.eq_dec h' h) as [->|Hn].
+    + rewrite Gh. split; [intros _; apply is_wait_PWait|auto].
+    + rewrite Go by exact Hn. rewrite <- (inv_live _ _ _ I). split; [intros [E|L]; [congruence|exact L]|auto].
+  - intros h' k' id' subs P. rewrite smap_with_live. unfold s1. rewrite get_register, smap_with_resum.
     destruct (Nat.eq_dec h' h) as [->|Hn].
     + rewrite Gh in P. injection P as <- <- <-. rewrite N.eqb_refl. reflexivity.
     + rewrite Go in P by exact Hn. pose proof (inv_wait _ _ _ I _ _ _ _ P) as G'.
       destruct (akind_eqb k' KPubComp && (id' =? id)) eqn:K; [|exact G'].
       apply key_eqb_true in K as [-> ->]. exfalso. apply Hn.
       apply (inv_pub2 _ _ _ I h' h id); [rewrite P|rewrite P0]; reflexivity.
-  - intros h' id'. unfold register. rewrite resum_with_map. cbn [resum with_resum].
+  - intros h' id'. cbn [resum with_live]. unfold s1, register. rewrite resum_with_map. cbn [resum with_resum].
     rewrite rs_del_in. destruct (Nat.eq_dec h' h) as [->|Hn].
     + rewrite Gh. split; [intros [_ H]; congruence|discriminate].
     + rewrite Go by exact Hn. rewrite (inv_resum _ _ _ I). tauto.
   - assert (Hp : forall h' i, pub2_at (g h') i -> pub2_at (f h') i).
     { intros h' i. destruct (Nat.eq_dec h' h) as [->|Hn]; [|rewrite Go by exact Hn; tauto].
       rewrite Gh, P0. cbn [pub2_at]. tauto. }
+    intros h1 h2 i P1 P2. exact (inv_pub2 _ _ _ I _ _ _ (Hp _ _ P1) (Hp _ _ P2)).
+  - intros h' Hm. pose proof (inv_new _ _ _ I _ Hm) as Pn.
+    rewrite Go; [exact Pn|]. intros Eh. rewrite Eh, P0 in Pn. discriminate.
+Qed.
+
+(* ---------- Cancel ---------- *)
+Lemma react_cancel h' p h :
+  react h' p (Cancel h) =
+  match p with
+  | PWait _ _ _ | PResum _ => if Nat.eqb h h' then (PFin, [Done h' RCancelled]) else (p, [])
+  | _ => (p, [])
+  end.
+Proof. destruct p; reflexivity. Qed.
+
+Lemma react_cancel_other h' p h : h' <> h -> react h' p (Cancel h) = (p, []).
+Proof.
+  intros Hn. rewrite react_cancel. destruct p; try reflexivity;
+    (destruct (Nat.eqb h h') eqn:E; [apply Nat.eqb_eq in E; congruence|reflexivity]).
+Qed.
+
+(* a blocked caller gives up: it leaves [live], its entry stays behind as a stale entry *)
+Lemma inv_cancel_live s f used h g : Inv s f used -> In h (live s) ->
+  g h = PFin -> (forall h', h' <> h -> g h' = f h') ->
+  Inv (with_live s (lv_del (live s) h)) g used.
+Proof.
+  intros I L Gh Go. pose proof (proj1 (inv_live _ _ _ I h) L) as (k0 & id0 & subs0 & P0).
+  split.
+  - intros k id w. rewrite smap_with_live. intros G. pose proof (inv_map _ _ _ I _ _ _ G) as P.
+    destruct (Nat.eq_dec (w_h w) h) as [E|Hn]; [rewrite E, Gh; right; reflexivity|].
+    rewrite Go by exact Hn. exact P.
+  - intros h'. cbn [live with_live]. rewrite lv_del_in, (inv_live _ _ _ I).
+    destruct (Nat.eq_dec h' h) as [->|Hn].
+    + rewrite Gh. split; [intros [_ H]; congruence|intros H; exfalso; exact (not_wait_fin H)].
+    + rewrite Go by exact Hn. tauto.
+  - intros h' k id subs P. rewrite smap_with_live. destruct (Nat.eq_dec h' h) as [->|Hn]; [congruence|].
+    rewrite Go in P by exact Hn. exact (inv_wait _ _ _ I _ _ _ _ P).
+  - intros h' id. cbn [resum with_live]. destruct (Nat.eq_dec h' h) as [->|Hn].
+    + rewrite Gh, (inv_resum _ _ _ I), P0. split; discriminate.
+    + rewrite Go by exact Hn. apply (inv_resum _ _ _ I).
+  - assert (Hp : forall h' i, pub2_at (g h') i -> pub2_at (f h') i).
+    { intros h' i. destruct (Nat.eq_dec h' h) as [->|Hn]; [rewrite Gh; intros []|rewrite Go by exact Hn; tauto]. }
+    intros h1 h2 i P1 P2. exact (inv_pub2 _ _ _ I _ _ _ (Hp _ _ P1) (Hp _ _ P2)).
+  - intros h' Hm. pose proof (inv_new _ _ _ I _ Hm) as Pn.
+    rewrite Go; [exact Pn|]. intros Eh. rewrite Eh, P0 in Pn. discriminate.
+Qed.
+
+(* a caller signalled by PUBREC gives up before running on *)
+Lemma inv_cancel_resum s f used h id g : Inv s f used -> rs_get (resum s) h = Some id ->
+  g h = PFin -> (forall h', h' <> h -> g h' = f h') ->
+  Inv (with_resum s (rs_del (resum s) h)) g used.
+Proof.
+  intros I R Gh Go. apply rs_get_in in R. pose proof (proj1 (inv_resum _ _ _ I _ _) R) as P0.
+  split.
+  - intros k i w. rewrite smap_with_resum. intros G. pose proof (inv_map _ _ _ I _ _ _ G) as P.
+    rewrite Go; [exact P|]. intros Eh. rewrite Eh, P0 in P. destruct P; discriminate.
+  - intros h'. cbn [live with_resum]. rewrite (inv_live _ _ _ I).
+    destruct (Nat.eq_dec h' h) as [->|Hn]; [|rewrite Go by exact Hn; tauto].
+    rewrite Gh, P0. split; intros H; exfalso; [exact (not_wait_resum _ H)|exact (not_wait_fin H)].
+  - intros h' k i subs P. rewrite smap_with_resum. destruct (Nat.eq_dec h' h) as [->|Hn]; [congruence|].
+    rewrite Go in P by exact Hn. exact (inv_wait _ _ _ I _ _ _ _ P).
+  - intros h' i. cbn [resum with_resum]. rewrite rs_del_in. destruct (Nat.eq_dec h' h) as [->|Hn].
+    + rewrite Gh. split; [intros [_ H]; congruence|discriminate].
+    + rewrite Go by exact Hn. rewrite (inv_resum _ _ _ I). tauto.
+  - assert (Hp : forall h' i, pub2_at (g h') i -> pub2_at (f h') i).
+    { intros h' i. destruct (Nat.eq_dec h' h) as [->|Hn]; [rewrite Gh; intros []|rewrite Go by exact Hn; tauto]. }
     intros h1 h2 i P1 P2. exact (inv_pub2 _ _ _ I _ _ _ (Hp _ _ P1) (Hp _ _ P2)).
   - intros h' Hm. pose proof (inv_new _ _ _ I _ Hm) as Pn.
     rewrite Go; [exact Pn|]. intros Eh. rewrite Eh, P0 in Pn. discriminate.
@@ -423,22 +596,35 @@ Proof. cbn. rewrite Nat.eqb_refl. reflexivity. Qed.
 Lemma concerns_done_other h h' r : h' <> h -> filter (concerns h') [Done h r] = [].
 Proof. intros Hn. cbn. destruct (Nat.eqb h h') eqn:E; [apply Nat.eqb_eq in E; congruence|reflexivity]. Qed.
 
+Lemma closed_with_live s l : closed (with_live s l) = closed s.
+Proof. reflexivity. Qed.
+
 Lemma step_sim s f used e :
   closed s = false -> Inv s f used -> ok_event s used e ->
   (forall h, filter (concerns h) (snd (step s e)) = snd (react h (f h) e)) /\
   closed (fst (step s e)) = existsb is_closed (snd (step s e)) /\
   (closed (fst (step s e)) = false -> Inv (fst (step s e)) (adv f e) (used_after used e)).
 Proof.
-  intros Hc I Hok. destruct e as [h rk id|a|h].
+  intros Hc I Hok. destruct e as [h rk id|a|h|h].
   - (* Start *)
     destruct Hok as [Hu Hf]. destruct (sim_start s f used h rk id Hc I Hu Hf) as (E & O & I').
     rewrite E. cbn [fst snd]. split; [intros h'; rewrite O; reflexivity|]. split.
-    + unfold register. rewrite closed_with_map. cbn. exact Hc.
+    + rewrite closed_with_live. unfold register. rewrite closed_with_map. cbn. exact Hc.
     + intros _. exact I'.
   - (* Recv *)
     cbn [step]. rewrite Hc. unfold take.
     destruct (wm_get (smap s (a_kind a)) (a_id a)) as [w|] eqn:G.
-    + destruct (owner_reacts s f used a w I G) as [P0 R0].
+    + rewrite live_with_map.
+      destruct (mem_nat (w_h w) (live s)) eqn:ML; cbn [negb].
+      2:{ (* stale entry *)
+        apply mem_nat_false in ML.
+        pose proof (stale_nobody_reacts s f used a w I G ML) as Rn. cbn [fst snd].
+        split; [intros h'; rewrite Rn; reflexivity|]. split.
+        { rewrite closed_with_map. cbn. exact Hc. }
+        intros _. apply (Inv_ext _ f); [intros h'; unfold adv; rewrite Rn; reflexivity|].
+        exact (inv_stale s f used _ _ w I G ML). }
+      apply mem_nat_true in ML.
+      destruct (owner_reacts s f used a w I G ML) as [P0 R0].
       pose proof (others_ignore s f used a w I G) as Ro.
       assert (Go : forall h', h' <> w_h w -> adv f (Recv a) h' = f h').
       { intros h' Hn. unfold adv. rewrite (Ro _ Hn). reflexivity. }
@@ -447,36 +633,33 @@ Proof.
       { intros r Er h'. destruct (Nat.eq_dec h' (w_h w)) as [->|Hn].
         - rewrite R0, Er. apply concerns_done_same.
         - rewrite (Ro _ Hn). apply concerns_done_other. exact Hn. }
-      fold (snd (take s (a_kind a) (a_id a))).
+      assert (Cl : closed (with_live (with_map s (a_kind a) (wm_del (smap s (a_kind a)) (a_id a)))
+                     (lv_del (live s) (w_h w))) = false).
+      { rewrite closed_with_live, closed_with_map. exact Hc. }
+      pose proof (inv_finish s f used (a_kind a) (a_id a) w (adv f (Recv a)) I G ML) as IF.
+      unfold take in IF. cbn [snd] in IF. rewrite live_with_map in IF.
       destruct (a_kind a) eqn:K.
-      * (* PUBACK *) cbn [fst snd]. split; [apply Fin; reflexivity|]. split.
-        { unfold take. cbn [snd]. rewrite closed_with_map. cbn. exact Hc. }
-        intros _. apply (inv_finish s f used _ (a_id a) w _ I G); try assumption.
-        unfold adv. rewrite R0. reflexivity.
+      * (* PUBACK *) cbn [fst snd]. split; [apply Fin; reflexivity|]. split; [cbn; exact Cl|].
+        intros _. apply IF; [unfold adv; rewrite R0; reflexivity|exact Go].
       * (* PUBREC *) cbn [fst snd]. split.
         { intros h'. destruct (Nat.eq_dec h' (w_h w)) as [->|Hn]; [rewrite R0|rewrite (Ro _ Hn)]; reflexivity. }
-        split. { unfold take. cbn. exact Hc. }
-        intros _. apply (inv_pubrec s f used _ w); try assumption.
-        unfold adv. rewrite R0. reflexivity.
-      * (* PUBCOMP *) cbn [fst snd]. split; [apply Fin; reflexivity|]. split.
-        { unfold take. cbn [snd]. rewrite closed_with_map. cbn. exact Hc. }
-        intros _. apply (inv_finish s f used _ (a_id a) w _ I G); try assumption.
-        unfold adv. rewrite R0. reflexivity.
+        split. { cbn. exact Hc. }
+        intros _. pose proof (inv_pubrec s f used (a_id a) w (adv f (Recv a)) I G ML) as IP.
+        unfold take in IP. cbn [snd] in IP. rewrite live_with_map in IP.
+        apply IP; [unfold adv; rewrite R0; reflexivity|exact Go].
+      * (* PUBCOMP *) cbn [fst snd]. split; [apply Fin; reflexivity|]. split; [cbn; exact Cl|].
+        intros _. apply IF; [unfold adv; rewrite R0; reflexivity|exact Go].
       * (* SUBACK *)
         destruct (Nat.eqb (length (a_codes a)) (length (w_subs w))) eqn:L; cbn [fst snd].
-        { split; [apply Fin; cbn [on_ack]; rewrite L; reflexivity|]. split.
-          { unfold take. cbn [snd]. rewrite closed_with_map. cbn. exact Hc. }
-          intros _. apply (inv_finish s f used _ (a_id a) w _ I G); try assumption.
-          unfold adv. rewrite R0. cbn [on_ack]. rewrite L. reflexivity. }
+        { split; [apply Fin; cbn [on_ack]; rewrite L; reflexivity|]. split; [cbn; exact Cl|].
+          intros _. apply IF; [unfold adv; rewrite R0; cbn [on_ack]; rewrite L; reflexivity|exact Go]. }
         { split.
           - intros h'. cbn [filter concerns]. destruct (Nat.eq_dec h' (w_h w)) as [->|Hn].
             + rewrite R0. cbn [on_ack]. rewrite L, Nat.eqb_refl. reflexivity.
             + rewrite (Ro _ Hn). destruct (Nat.eqb (w_h w) h') eqn:E; [apply Nat.eqb_eq in E; congruence|reflexivity].
           - split; [reflexivity|]. cbn. discriminate. }
-      * (* UNSUBACK *) cbn [fst snd]. split; [apply Fin; reflexivity|]. split.
-        { unfold take. cbn [snd]. rewrite closed_with_map. cbn. exact Hc. }
-        intros _. apply (inv_finish s f used _ (a_id a) w _ I G); try assumption.
-        unfold adv. rewrite R0. reflexivity.
+      * (* UNSUBACK *) cbn [fst snd]. split; [apply Fin; reflexivity|]. split; [cbn; exact Cl|].
+        intros _. apply IF; [unfold adv; rewrite R0; reflexivity|exact Go].
     + pose proof (nobody_reacts s f used a I G) as Rn. cbn [fst snd].
       split; [intros h'; rewrite Rn; reflexivity|]. split.
       { rewrite closed_with_map. cbn. exact Hc. }
@@ -494,7 +677,7 @@ Proof.
       { intros h'. cbn [filter concerns]. destruct (Nat.eq_dec h' h) as [->|Hn].
         - rewrite Rh, Nat.eqb_refl. reflexivity.
         - rewrite (Ro _ Hn). destruct (Nat.eqb h h') eqn:E; [apply Nat.eqb_eq in E; congruence|reflexivity]. }
-      split. { unfold register. rewrite closed_with_map. cbn. exact Hc. }
+      split. { rewrite closed_with_live. unfold register. rewrite closed_with_map. cbn. exact Hc. }
       intros _. apply (inv_resume s f used h id); try assumption.
       * unfold adv. rewrite Rh. reflexivity.
       * intros h' Hn. unfold adv. rewrite (Ro _ Hn). reflexivity.
@@ -505,6 +688,38 @@ Proof.
         apply (inv_resum _ _ _ I) in E. exfalso. exact (rs_get_none _ _ R _ E). }
       split; [intros h'; rewrite Rn; reflexivity|]. split; [cbn; exact Hc|].
       intros _. apply (Inv_ext s f); [|exact I]. intros h'. unfold adv. rewrite Rn. reflexivity.
+  - (* Cancel *)
+    cbn [step]. rewrite Hc.
+    assert (Ro : forall h', h' <> h -> react h' (f h') (Cancel h) = (f h', [])).
+    { intros h' Hn. apply react_cancel_other. exact Hn. }
+    assert (Out : forall p, react h (f h) (Cancel h) = (PFin, [Done h RCancelled]) ->
+              forall h', filter (concerns h') [Done h RCancelled] = snd (react h' (f h') (Cancel h))).
+    { intros _ Rh h'. destruct (Nat.eq_dec h' h) as [->|Hn].
+      - rewrite Rh. apply concerns_done_same.
+      - rewrite (Ro _ Hn). apply concerns_done_other. exact Hn. }
+    destruct (mem_nat h (live s)) eqn:ML.
+    + apply mem_nat_true in ML. pose proof (proj1 (inv_live _ _ _ I h) ML) as (k0 & id0 & subs0 & P0).
+      assert (Rh : react h (f h) (Cancel h) = (PFin, [Done h RCancelled])).
+      { rewrite react_cancel, P0, Nat.eqb_refl. reflexivity. }
+      cbn [fst snd]. split; [exact (Out PFin Rh)|]. split; [cbn; exact Hc|].
+      intros _. apply (inv_cancel_live s f used h); try assumption.
+      * unfold adv. rewrite Rh. reflexivity.
+      * intros h' Hn. unfold adv. rewrite (Ro _ Hn). reflexivity.
+    + apply mem_nat_false in ML. destruct (rs_get (resum s) h) as [id|] eqn:R.
+      * pose proof (proj1 (inv_resum _ _ _ I _ _) (rs_get_in _ _ _ R)) as P0.
+        assert (Rh : react h (f h) (Cancel h) = (PFin, [Done h RCancelled])).
+        { rewrite react_cancel, P0, Nat.eqb_refl. reflexivity. }
+        cbn [fst snd]. split; [exact (Out PFin Rh)|]. split; [cbn; exact Hc|].
+        intros _. apply (inv_cancel_resum s f used h id); try assumption.
+        -- unfold adv. rewrite Rh. reflexivity.
+        -- intros h' Hn. unfold adv. rewrite (Ro _ Hn). reflexivity.
+      * assert (Rn : forall h', react h' (f h') (Cancel h) = (f h', [])).
+        { intros h'. destruct (Nat.eq_dec h' h) as [->|Hn]; [|exact (Ro _ Hn)].
+          rewrite react_cancel. destruct (f h) as [|k i subs|i|] eqn:E; try reflexivity.
+          - exfalso. apply ML. apply (inv_live _ _ _ I). rewrite E. apply is_wait_PWait.
+          - apply (inv_resum _ _ _ I) in E. exfalso. exact (rs_get_none _ _ R _ E). }
+        cbn [fst snd]. split; [intros h'; rewrite Rn; reflexivity|]. split; [cbn; exact Hc|].
+        intros _. apply (Inv_ext s f); [|exact I]. intros h'. unfold adv. rewrite Rn. reflexivity.
 Qed.
 
 (* ================= refinement ================= *)
@@ -663,13 +878,6 @@ Proof.
     + intros (rk & id & [H|H]); [injection H as -> _ _; left; reflexivity|right; exists rk, id; exact H].
   - split; intros (rk & id & H); exists rk, id; [right; exact H|destruct H as [H|H]; [discriminate|exact H]].
   - split; intros (rk & id & H); exists rk, id; [right; exact H|destruct H as [H|H]; [discriminate|exact H]].
-Qed.
-
-Lemma mem_nat_true h l : mem_nat h l = true <-> In h l.
-Proof.
-  unfold mem_nat. rewrite existsb_exists. split.
-  - intros (x & Hin & E). apply Nat.eqb_eq in E. subst. exact Hin.
-  - intros Hin. exists h. split; [exact Hin|apply Nat.eqb_refl].
 Qed.
 
 Lemma wf_from_starts : forall evs s used, wf_from s used evs = true ->
